@@ -90,6 +90,11 @@ func (d *deferStreamLabelsVisitor) EnterDirective(ref int) {
 	labelString := d.operation.StringValueContentString(labelValue.Ref)
 
 	if previous, exists := d.seenLabels[labelString]; exists {
+		if previous.directiveRef == ref {
+			// the same directive again: the walker revisits a selection set after a sibling node
+			// was removed (static @skip/@include in the shared normalization walk)
+			return
+		}
 		previousDirectiveName := d.operation.DirectiveNameBytes(previous.directiveRef)
 		d.StopWithExternalErr(operationreport.ErrDeferStreamDirectiveLabelMustBeUnique(
 			directiveName,
